@@ -8,7 +8,7 @@ static struct { uint8_t mode, lss_conf, emcy0, stopped; uint8_t p8; } M;
 static const uint8_t CS[] = { 1, 2, 128, 129, 130, 0, 3, 127, 255 };
 #define NT 5           /* NMT targets: own id, 0 (all), another id, 80h | own id, 80h - a node id is the whole byte, not its low seven bits */
 enum { E_NMT0 = 0, E_SETMODE0 = 9 * NT, E_START = 9 * NT + 3, E_RESET_NODE, E_RESET_COM, E_STOPNODE, E_P_SDO, E_P_RPDO, E_P_SYNC, E_P_HBMON, E_P_HBFOREIGN,
-       E_P_LSS_CONF, E_P_LSS_WAIT, E_P_LSS_INQ, E_P_FOREIGN, E_P_OWN_SDO, E_P_OWN_HB, E_P_OWN_PDO, E_EMCY_SET, E_EMCY_CLR, E_TRIG, E_TICK, E_TRIG2, E_N };
+       E_P_LSS_CONF, E_P_LSS_WAIT, E_P_LSS_INQ, E_P_FOREIGN, E_P_OWN_SDO, E_P_OWN_HB, E_P_OWN_PDO, E_P_EXT_NMT, E_P_EXT_SDO, E_P_EXT_RPDO, E_EMCY_SET, E_EMCY_CLR, E_TRIG, E_TICK, E_TRIG2, E_N };
 static uint8_t NID;
 
 static int TT;   /* cfg 4: timer-driven TPDO instead of the heartbeat services */
@@ -43,7 +43,7 @@ static const char *ev_name(int e)
     static char b[64];
     static const char *const N[] = { "CONodeStart", "CONmtReset(node)", "CONmtReset(com)", "CONodeStop", "probe:SDO upload 1000h", "probe:RPDO frame", "probe:SYNC", "probe:heartbeat of monitored node",
         "probe:heartbeat of unmonitored node", "probe:LSS switch global(configuration)", "probe:LSS switch global(waiting)", "probe:LSS inquire node-id", "probe:foreign identifier 123h",
-        "probe:own SDO response id", "probe:own heartbeat id", "probe:own TPDO id", "COEmcySet(0)", "COEmcyClr(0)", "COTPdoTrigPdo(0)", "tick", "COTPdoTrigPdo(2) (timer-driven TPDO)" };
+        "probe:own SDO response id", "probe:own heartbeat id", "probe:own TPDO id", "probe:NMT start on identifier 20000000h", "probe:SDO request on 20000600h+id", "probe:RPDO frame on 20000200h+id", "COEmcySet(0)", "COEmcyClr(0)", "COTPdoTrigPdo(0)", "tick", "COTPdoTrigPdo(2) (timer-driven TPDO)" };
     if (e < E_SETMODE0) { int t = e % NT; snprintf(b, sizeof b, "NMT cs=%d target=%s", CS[e / NT], t == 0 ? "own" : t == 1 ? "0(all)" : t == 2 ? "other" : t == 3 ? "80h|own" : "80h"); }
     else if (e < E_START) snprintf(b, sizeof b, "CONmtSetMode(%s)", e == E_SETMODE0 ? "PREOP" : e == E_SETMODE0 + 1 ? "OPERATIONAL" : "STOP");
     else snprintf(b, sizeof b, "%s", N[e - E_START]);
@@ -120,6 +120,10 @@ static int step(int e)
     case E_P_OWN_SDO: unclaimed(); d[0] = 0x60; w_rx(&Node, 0x580 + NID, 8, d); break;
     case E_P_OWN_HB:  unclaimed(); d[0] = 0x7F; w_rx(&Node, 0x700 + NID, 1, d); break;
     case E_P_OWN_PDO: unclaimed(); d[0] = 1; w_rx(&Node, 0x180 + NID, 1, d); break;
+    /* identifiers that equal a served one in their low 11 bits only (a driver flagging extended frames in the upper bits): no service may claim them */
+    case E_P_EXT_NMT: unclaimed(); d[0] = 1; d[1] = NID; w_rx(&Node, 0x20000000u, 2, d); break;
+    case E_P_EXT_SDO: unclaimed(); w_rx8(&Node, 0x20000600u + NID, 0x40, 0x00, 0x10, 0x00, 0, 0, 0, 0); break;
+    case E_P_EXT_RPDO: unclaimed(); d[0] = 0x5A; w_rx(&Node, 0x20000200u + NID, 1, d); break;
     case E_EMCY_SET: if (!M.emcy0) { M.emcy0 = 1; if (M.mode == M_PREOP || M.mode == M_OP) X.n_emcy = 1; } COEmcySet(&Node.Emcy, 0, 0); break;
     case E_EMCY_CLR: if (M.emcy0)  { M.emcy0 = 0; if (M.mode == M_PREOP || M.mode == M_OP) X.n_emcy = 1; } COEmcyClr(&Node.Emcy, 0); break;
     case E_TRIG: if (M.mode == M_OP) X.n_tpdo0 = 1; COTPdoTrigPdo(Node.TPdo, 0); break;
